@@ -745,6 +745,18 @@ func (t *c17) mergeLaws(r *rand.Rand, exhaustive int) {
 			c.Viol("merge:host-dirty-spurious", "nothing changed but Dirty() became true", map[string]any{"index": t.idx, "source": src})
 			return
 		}
+		// idempotence seen from outside: the same update once more changes neither the values nor what is pending - a
+		// change that has not been reported yet stays to be reported
+		pending := host.Dirty()
+		[]func(packet.NameEntry){host.UpdateDHCP4Name, host.UpdateMDNSName, host.UpdateSSDPName, host.UpdateLLMNRName, host.UpdateNBNSName}[src](n)
+		if again := attrs(get()); again != aa {
+			c.Viol("merge:host-idempotent", fmt.Sprintf("source %d: applying the same update again changed the host's entry from %v to %v", src, aa, again), map[string]any{"index": t.idx})
+			return
+		}
+		if host.Dirty() != pending {
+			c.Viol("merge:host-pending-changed", fmt.Sprintf("source %d: applying the same update again turned Dirty() from %v to %v", src, pending, host.Dirty()), map[string]any{"index": t.idx, "update": fmt.Sprintf("%+v", n)})
+			return
+		}
 		c.Class(fmt.Sprintf("hostmerge src=%d changed=%v", src, changed))
 	}
 }
